@@ -193,4 +193,101 @@ def settleAtoms (s : Sys) : Nat → List Atom
 
 end RwLock
 
+/-! ### OnceCell -/
+namespace Once
+
+def ldA (st : Nat) : Atom := { op := .load, ord := "Acquire", ret := .val st }
+def cas01A : Atom := { op := .cas, a := 0, b := 1, ord := "AcqRel/Acquire", ret := .ok 0 }
+def storeA (v : Nat) : Atom := { op := .store, a := v, ord := "Release", ret := .none }
+
+/-- the initialiser is polled by the caller holding the guard: `Ok` stores `Initialized` (and the
+caller's `debug_assert!(is_initialized())` loads once more), `Err` / panic drop the guard -/
+def initAtoms (fu : Fut) (i : Input) : List Atom :=
+  let i := if fu.kind = .set then Input.ok
+           else if i = .cpanic then (if fu.pc = .running then Input.pend else Input.panic)
+           else i
+  match i with
+  | .pend => []
+  | .ok => [storeA 2, ldA 2]
+  | .err => if fu.kind = .tryInit then [storeA 0] else []
+  | .panic => [storeA 0]
+  | .cpanic => []
+
+/-- a `set` that hands its argument back reads the cell once more -/
+def setTail (fu : Fut) (back : Bool) (st : Nat) : List Atom :=
+  if fu.kind = .set && back then [ldA st] else []
+
+def pollAtoms (s : Sys) (fu : Fut) (t : Nat) (i : Input) : List Atom :=
+  let r := if fu.kind = .wait then pollWait s fu t else pollInit s fu t i
+  let done := match r.out with | .setBack _ => true | _ => false
+  if fu.kind = .wait then
+    match fu.pc with
+    | .start => if s.state = 2 then [ldA 2] else [ldA s.state, ldA s.state]
+    | .waiting => if !Ev.isNotified s.pas fu.id then [] else [ldA s.state]
+    | _ => []
+  else
+    (match fu.pc with
+     | .start =>
+       if s.state = 2 then [ldA 2]
+       else if s.state = 1 then [ldA 1, ldA 1, ldA 1]
+       else [ldA 0, ldA 0, cas01A] ++ initAtoms fu i
+     | .waiting =>
+       if !Ev.isNotified s.act fu.id then []
+       else if s.state = 2 then [ldA 2, ldA 2]
+       else if s.state = 1 then [ldA 1, ldA 1]
+       else [ldA 0, cas01A] ++ initAtoms fu i
+     | .running => initAtoms fu i
+     | .done => []) ++ setTail fu done r.s.state
+
+def stepAtoms (s : Sys) : Op → List Atom
+  | .poll f t i =>
+    match findFut s f with
+    | some fu => if fu.pc = .done then [] else pollAtoms { s with woken := s.woken.filter (· != f) } fu t i
+    | none => []
+  | .dropFut f =>
+    match findFut s f with
+    | some fu => if fu.pc = .running then [storeA 0] else []
+    | none => []
+  | .get => if s.gone then [] else [ldA s.state]
+  | _ => []
+
+def settleAtoms (s : Sys) : Nat → List Atom
+  | 0 => []
+  | fuel + 1 =>
+    match minOf s.woken with
+    | none => []
+    | some f =>
+      let op := Op.poll f (lastWaker s f) .pend
+      stepAtoms s op ++ settleAtoms (next s op) fuel
+
+end Once
+
+/-! ### Barrier (its only word is the inner mutex's) -/
+namespace Barrier
+
+/-- an arrival, or a re-check after a notification, takes and releases the inner mutex -/
+def lockUnlock : List Atom := [cas01 0, fsub1 1]
+
+def stepAtoms (s : Sys) : Op → List Atom
+  | .poll f _ =>
+    match findFut s f with
+    | some fu =>
+      match fu.pc with
+      | .initial => lockUnlock
+      | .waiting _ => if Ev.isNotified s.q f then lockUnlock else []
+      | .done => []
+    | none => []
+  | _ => []
+
+def settleAtoms (s : Sys) : Nat → List Atom
+  | 0 => []
+  | fuel + 1 =>
+    match minOf s.woken with
+    | none => []
+    | some f =>
+      let op := Op.poll f (lastWaker s f)
+      stepAtoms s op ++ settleAtoms (next s op) fuel
+
+end Barrier
+
 end ALock
